@@ -126,10 +126,10 @@ def all_loops(run, F, E):
 
 
 def run(run):
-    flow_rules.flow_obligations(run, {'C02.d', 'C01.a'})
+    flow_rules.flow_obligations(run, {'C02.d', 'C01.a', 'C03.a'})
     # rename the flow obligations: for C04 they are clause C04.c
     for o in run.obligations:
-        if o['rule'] in ('C02.d', 'C01.a'):
+        if o['rule'] in ('C02.d', 'C01.a', 'C03.a'):
             c = run.rule_counts[o['rule']]
             c[0] -= 1
             if o['ok']:
